@@ -116,6 +116,10 @@ func runBidiPeakDrain(c *core.Ctx, kind string) {
 }
 
 func runC10(c *core.Ctx) {
+	if c.Index < 3 {
+		runHugeHash(c, 2) // HashBidiMap beyond 4096 pairs: both directions, mass removal, Clear
+		return
+	}
 	kind := []string{"HashBidiMap", "TreeBidiMap"}[c.Index%2]
 	if (c.Index/2)%499 == 33 {
 		runBidiPeakDrain(c, kind)
@@ -157,6 +161,7 @@ func init() {
 			f.atLeast("call:HashBidiMap.Remove", 10000)
 			f.atLeast("call:TreeBidiMap.Remove", 10000)
 			f.atLeast("keytype:float", 200)
+			f.atLeast("obs:huge-hash-cases", 3)
 			f.atLeast("ctor:builtin-comparator", 500)
 			return f.missing
 		},
